@@ -92,11 +92,11 @@ def run(chk):
         raise AnalysisError("C02.framing.server: `if self._chunked:` chain not found in _prepare_headers")
     after = ph.node.body[ph.node.body.index(chain[0]) + 1:]
     rows = bad = 0
-    for chunked, lcheck, length, ver, empty in itertools.product((False, True), (False, True), (None, 5), (V10, V11), (False, True)):
+    for chunked, lcheck, length, ver, empty, ka in itertools.product((False, True), (False, True), (None, 5), (V10, V11), (False, True), (True, False)):
         if not lcheck and not chunked:
             continue  # premise checked below: _length_check is only disabled for empty-body statuses
         env = {"self._chunked": chunked, "self._length_check": lcheck, "self.content_length": length, "version": ver, "HttpVersion11": V11, "HttpVersion10": V10,
-               "self._must_be_empty_body": empty, "keep_alive": True, "self._keep_alive": True, "headers": Dict(), "hdrs.TRANSFER_ENCODING": "Transfer-Encoding",
+               "self._must_be_empty_body": empty, "keep_alive": ka, "self._keep_alive": ka, "headers": Dict(), "hdrs.TRANSFER_ENCODING": "Transfer-Encoding",
                "request.version.major": ver[0], "request.version.minor": ver[1]}
         ev = Evaluator(env, opaque_calls=("writer.enable_chunking()",))
         # writer.length = self.content_length
@@ -116,6 +116,13 @@ def run(chk):
         known = ev.env.get("writer.length", length if lcheck else None) is not None and lcheck and not chunked
         closes = ev2.env.get("self._keep_alive") is False
         rows += 1
+        # (round 7, seed C02-7) to an HTTP/1.1 peer a body of unknown length is chunked whether or not the connection closes after it: only
+        # then can the peer tell a complete body from a broken connection (and a client that does not read until EOF gets the body at all)
+        if ver == V11 and length is None and lcheck and not empty and not chunking:
+            bad += 1
+            chk.violation("C02.framing.server", chain[0], "if version >= HttpVersion11:", f"writer.enable_chunking() [HTTP/1.1, length unknown, keep_alive={ka}]",
+                          f"an HTTP/1.1 response of unknown length is sent without chunking when keep_alive={ka}: the end of the connection delimits the body, so a handler that fails after writing part of it delivers the fragment as a complete 200 body (no ClientPayloadError), and a request made with read_until_eof=False gets an empty body while the bytes are parsed as a further response")
+            continue
         if not (empty or chunking or known or closes):
             bad += 1
             local_only = ev.env.get("keep_alive") is False
